@@ -51,7 +51,21 @@ static void readstr(pid_t tid, unsigned long addr, char *buf, size_t n) {
 	buf[i] = 0;
 }
 
-static int underprefix(const char *p) { return strncmp(p, prefix, strlen(prefix)) == 0; }
+static int relok = 0; // -r: the command runs with the prefix directory as working directory, relative paths count
+// underprefix tells whether a path argument lies in the watched directory; with -r a relative
+// path does (it is rewritten to prefix/path so that the log and the descriptor table hold
+// absolute names).
+static int underprefix(char *p) {
+	if (relok && p[0] && p[0] != '/') {
+		char tmp[512];
+		const char *q = p;
+		if (q[0] == '.' && q[1] == '/') q += 2;
+		snprintf(tmp, sizeof tmp, "%s/%s", prefix, q);
+		strcpy(p, tmp);
+		return 1;
+	}
+	return strncmp(p, prefix, strlen(prefix)) == 0;
+}
 
 static const char *sname(long nr) {
 	switch (nr) {
@@ -85,6 +99,7 @@ int main(int argc, char **argv) {
 		else if (!strcmp(argv[ai], "-s")) { mode = 4; target = atoi(argv[++ai]); signo = atoi(argv[++ai]); }
 		else if (!strcmp(argv[ai], "-P")) persist = 1;
 		else if (!strcmp(argv[ai], "-1")) stdoutwrites = 1;
+		else if (!strcmp(argv[ai], "-r")) relok = 1;
 		ai++;
 	}
 	ai++;
@@ -181,6 +196,7 @@ int main(int argc, char **argv) {
 						char path[512];
 						// re-read path: registers still hold args at exit
 						readstr(tid, nr == SYS_openat ? r.rsi : r.rdi, path, sizeof path);
+						underprefix(path);
 						strcpy(fdpath[ret], path);
 					}
 					if (nr == SYS_close && ret == 0) { int fd = (int)T[s].a0; if (fd >= 0 && fd < MAXFD) fdpath[fd][0] = 0; }
